@@ -33,10 +33,13 @@ NUM_CODES = {"point": 1, "interval": 2, "triangle": 6, "quadrilateral": 8}
 ITYPE = {"cell": 0, "exterior_facet": 1, "interior_facet": 2, "vertex": 3, "ridge": 4}
 
 THEOREMS = [
-    "Ffcx.C02.facet_map_vertices", "Ffcx.C02.facet_map_affine", "Ffcx.C02.refgeom_tables",
-    "Ffcx.C02.refgeom_access_partial", "Ffcx.C02.refgeom_access_counterexample",
-    "Ffcx.C02.entity_by_restriction", "Ffcx.C02.macro_layout",
+    "Ffcx.C02.refgeom_nonvacuous", "Ffcx.C02.facet_map_vertices", "Ffcx.C02.facet_map_affine",
+    "Ffcx.C02.refgeom_tables", "Ffcx.C02.refgeom_access_partial", "Ffcx.C02.entity_by_restriction",
+    "Ffcx.C02.entity_table_read", "Ffcx.C02.macro_layout",
 ]
+# FfcxProofs.C02Known: statements expected to become FALSE when the known finding is repaired upstream
+KNOWN_FINDING_KEY = "refgeom:reference_facet_edge_vectors:ignores-facet"
+KNOWN_THEOREMS = ["Ffcx.C02.refgeom_access_counterexample"]
 
 
 # =====================================================================================
@@ -89,21 +92,42 @@ def facet_edge_matrix(cell, f):
 _COORD_EL = {}
 
 
-def coord_element(cell):
-    if cell not in _COORD_EL:
-        _COORD_EL[cell] = basix.create_element(basix.ElementFamily.P, ctype(cell), 1)
-    return _COORD_EL[cell]
+def coord_element(cell, gdeg=1):
+    if (cell, gdeg) not in _COORD_EL:
+        # the scalar element of the coordinate element FFCx sees for mesh(cell, gdeg)
+        _COORD_EL[(cell, gdeg)] = basix.ufl.element("P", cell, gdeg).basix_element
+    return _COORD_EL[(cell, gdeg)]
+
+
+def ref_outward_normal(cell, f):
+    """Outward normal of facet f of the reference cell (not normalised), from basix geometry only."""
+    g = ref_geometry(cell)
+    td = TDIM[cell]
+    fv = ref_topology(cell)[td - 1][f]
+    P = g[fv]
+    if td == 1:
+        return P[0] - g.mean(axis=0)
+    T = (P[1:] - P[0])[: td - 1]
+    _, _, vt = np.linalg.svd(T)
+    n = vt[-1]
+    if np.dot(n, P.mean(axis=0) - g.mean(axis=0)) < 0:
+        n = -n
+    return n
 
 
 class PhysCell:
-    """A physical cell with degree-1 geometry: vertex coordinates V (nverts x gdim), gdim = tdim."""
+    """A physical cell: coordinates V (nnodes x gdim, gdim = tdim) of the nodes of the degree-`gdeg` Lagrange coordinate
+    element (gdeg = 1: the vertices).  `affine` tells whether x(X) is an affine map; the non-affine cells (bilinear
+    quadrilaterals, P2 triangles with curved edges) use Newton's method for `inverse` and point-wise normals."""
 
-    def __init__(self, cell, V):
+    def __init__(self, cell, V, gdeg=1):
         self.cell = cell
         self.V = np.asarray(V, dtype=float)
         self.tdim = TDIM[cell]
-        g = ref_geometry(cell)
-        # affine part (all cells used here are affine images of the reference cell)
+        self.gdeg = gdeg
+        self.nodes = ref_geometry(cell) if gdeg == 1 else np.asarray(coord_element(cell, gdeg).points, dtype=float)
+        g = self.nodes
+        # affine part (least squares; exact for the affine cells)
         A = np.hstack([g, np.ones((g.shape[0], 1))])
         M, res, *_ = np.linalg.lstsq(A, self.V, rcond=None)
         self.B = M[:-1].T  # gdim x tdim
@@ -112,22 +136,31 @@ class PhysCell:
 
     def x(self, X):
         X = np.asarray(X, dtype=float).reshape(-1, self.tdim)
-        tab = coord_element(self.cell).tabulate(0, X)[0, :, :, 0]
+        tab = coord_element(self.cell, self.gdeg).tabulate(0, X)[0, :, :, 0]
         return tab @ self.V
 
     def J(self, X):
         X = np.asarray(X, dtype=float).reshape(-1, self.tdim)
-        tab = coord_element(self.cell).tabulate(1, X)  # [1+tdim, npts, ndof, 1]
+        tab = coord_element(self.cell, self.gdeg).tabulate(1, X)  # [1+tdim, npts, ndof, 1]
         # J[p, i, j] = d x_i / d X_j
         return np.einsum("jpk,ki->pij", tab[1:, :, :, 0], self.V)
 
     def inverse(self, x):
-        assert self.affine
         x = np.asarray(x, dtype=float).reshape(-1, self.V.shape[1])
-        return np.linalg.solve(self.B, (x - self.b).T).T
+        X = np.linalg.solve(self.B, (x - self.b).T).T
+        if self.affine:
+            return X
+        for _ in range(50):  # Newton from the affine guess
+            r = self.x(X) - x
+            if float(np.abs(r).max()) < 1e-15:
+                break
+            X = X - np.einsum("pij,pj->pi", np.linalg.inv(self.J(X)), r)
+        if float(np.abs(self.x(X) - x).max()) > 1e-12:
+            raise RuntimeError("Newton inverse of a non-affine cell did not converge")
+        return X
 
     def centroid(self):
-        return self.V.mean(axis=0)
+        return self.V[: ref_geometry(self.cell).shape[0]].mean(axis=0)
 
     def coordinate_dofs(self):
         out = np.zeros((self.V.shape[0], 3))
@@ -163,10 +196,19 @@ class PhysCell:
             n = -n
         return n / np.linalg.norm(n)
 
+    def outward_normals_at(self, f, Xcell):
+        """Unit outward normals of facet f at the reference-cell points Xcell (any geometry): J^{-T} n_ref, normalised."""
+        nref = ref_outward_normal(self.cell, f)
+        Jinv = np.linalg.inv(self.J(Xcell))
+        n = np.einsum("pji,j->pi", Jinv, nref)
+        return n / np.linalg.norm(n, axis=1)[:, None]
+
     def volume(self):
+        assert self.affine
         return abs(np.linalg.det(self.B)) * float(basix.cell.volume(ctype(self.cell)))
 
     def facet_area(self, f):
+        assert self.affine
         ft = facet_type(self.cell, f)
         refvol = 1.0 if ft == "point" else float(basix.cell.volume(ctype(ft)))
         Xf = np.zeros((1, self.tdim - 1)) + 0.25
@@ -396,7 +438,8 @@ class Pt:
         return self.s.w[k][self._side(r)] @ g
 
     def n(self, r=None):
-        return self.s.normals[self._side(r)]
+        nn = self.s.normals[self._side(r)]
+        return nn if nn.ndim == 1 else nn[self.q]  # per-point normals on non-affine cells
 
     def x(self):
         return self.s.xq[self.q]
@@ -442,12 +485,16 @@ class OracleSetup:
             self.xq = cp.x(Xp)
             self.scale = cp.facet_scale(entities[0], Xf)
             Xc = [Xp]
-            self.normals = [cp.outward_normal(entities[0])]
-            self.area = cp.facet_area(entities[0])
             if self.width == 2:
-                cm = cells[1]
-                Xc.append(cm.inverse(self.xq))
-                self.normals.append(cm.outward_normal(entities[1]))
+                Xc.append(cells[1].inverse(self.xq))
+            if all(c.affine for c in cells):
+                self.normals = [c.outward_normal(e) for c, e in zip(cells, entities)]
+                self.area = cp.facet_area(entities[0])
+            else:
+                # non-affine geometry (bilinear quadrilaterals, P2 triangles): normals vary along the facet; FacetArea /
+                # CellVolume are not available to the integrands of these cases (UFL supports them on affine cells only)
+                self.normals = [c.outward_normals_at(e, Xr) for c, e, Xr in zip(cells, entities, Xc)]
+                self.area = None
         self.Xc = Xc
         self.tabs = {}
         for el in {id(e): e for e in [test, trial, *coefs] if e is not None}.values():
@@ -499,13 +546,18 @@ def mesh(cell, gdeg=1):
 
 
 class FormCase:
-    """A UFL form together with its independent numpy meaning."""
+    """A UFL form together with its independent numpy meaning.  `geom`: "affine" (degree-1 affine cells), "q1"
+    (non-affine bilinear quadrilaterals) or "p2" (triangles with a degree-2 coordinate element, curved edges); the
+    non-affine cases fix the quadrature degree `qdeg` in the form and use the same basix rule in the oracle (their
+    integrands are rational, so no rule is exact)."""
 
-    def __init__(self, name, cell, itype, build):
+    def __init__(self, name, cell, itype, build, geom="affine", qdeg=8):
         self.name, self.cell, self.itype, self.build = name, cell, itype, build
+        self.geom, self.qdeg = geom, qdeg
+        self.gdeg = 2 if geom == "p2" else 1
 
     def make(self):
-        m = mesh(self.cell)
+        m = mesh(self.cell, self.gdeg)
         d = self.build(m)
         self.form = d["form"]
         self.test = d.get("test")
@@ -1174,12 +1226,13 @@ def probe_rfev(chk, rng):
                                 "oracle_A": np.asarray(ref).tolist()})
     if bad:
         chk.violation(
-            key="refgeom:reference_facet_edge_vectors:ignores-facet",
+            key=KNOWN_FINDING_KEY,
             what="ReferenceFacetEdgeVectors evaluates to facet 0's edge vectors on every facet "
                  "(access.reference_facet_edge_vectors indexes the flattened table without the facet)",
             payload={"ufl": "ufl.geometry.ReferenceFacetEdgeVectors(mesh)[a, b] * v * ds, P1 tetrahedron",
                      "coordinate_dofs": cp.coordinate_dofs().reshape(-1).tolist(), "failures": bad[:6],
-                     "lean": "Ffcx.C02.refgeom_access_counterexample"})
+                     "lean": "Ffcx.C02.refgeom_access_counterexample (FfcxProofs.C02Known)"})
+    return bool(bad)
 
 
 # =====================================================================================
